@@ -12,6 +12,7 @@
 #pragma once
 #include <fcntl.h>
 #include <signal.h>
+#include <sys/time.h>
 #include <sys/wait.h>
 #include <unistd.h>
 
@@ -191,6 +192,7 @@ inline int drive(int argc, char **argv, const ExecFn &fn, const ExecFn *warm_fn 
         return 2;
     }
     long timeout_s = getenv("HR_EXEC_TIMEOUT") ? atol(getenv("HR_EXEC_TIMEOUT")) : 20;
+    int wall_hits = 0;
     read_script(argv[1], shard, nshards, [&](const Execution &ex) {
         out().xid = ex.id;
         if (nofork) {
@@ -210,7 +212,13 @@ inline int drive(int argc, char **argv, const ExecFn &fn, const ExecFn *warm_fn 
             close(errpipe[0]);
             dup2(errpipe[1], 2);
             close(errpipe[1]);
-            alarm((unsigned) timeout_s);
+            // an execution may use timeout_s seconds of CPU time (SIGPROF ends it: a busy hang); the wall-clock alarm
+            // is only a backstop for a blocked hang, generous enough for a machine that runs many checks at once
+            struct itimerval cpu;
+            memset(&cpu, 0, sizeof cpu);
+            cpu.it_value.tv_sec = timeout_s;
+            setitimer(ITIMER_PROF, &cpu, nullptr);
+            alarm((unsigned) (wall_hits >= 2 ? timeout_s : timeout_s * 6));   // after two blocked hangs it is the code, not the machine
             fn(ex);
             out().flush();
             fflush(nullptr);
@@ -225,6 +233,7 @@ inline int drive(int argc, char **argv, const ExecFn &fn, const ExecFn *warm_fn 
         close(errpipe[0]);
         int st = 0;
         waitpid(pid, &st, 0);
+        if (WIFSIGNALED(st) && WTERMSIG(st) == SIGALRM) ++wall_hits;
         if (WIFSIGNALED(st)) {
             out().line("\"e\":\"Crash\",\"sig\":%d,\"stderr\":%s", WTERMSIG(st), jstr(err.substr(0, 1500)).c_str());
         } else if (WIFEXITED(st) && WEXITSTATUS(st) != 0) {
